@@ -250,6 +250,18 @@ func (fx *FX) callFunction(st *State, v ssa.Value, callee *ssa.Function, c *ssa.
 		return fx.callContract(st, v, callee, fc, c, pos, args, env, tTrue)
 	}
 	fx.note("external function %s has no model: result unconstrained, assumed total and effect-free", callee.String())
+	if fx.fn.Name() != "init" && !strings.HasPrefix(fx.fn.Name(), "init#") {
+		// effect-free is only assumed for arguments the call owns or merely reads: package-level state handed by
+		// address to unmodelled code (sync.Map, atomic.Value, a mutex-guarded cache, ...) is shared mutable state
+		for _, a := range c.Args {
+			switch a.Type().Underlying().(type) {
+			case *types.Pointer, *types.Map, *types.Slice:
+				if g, ok := rootOf(a).(*ssa.Global); ok {
+					fx.oblige("own:global-escape", "", st.PC, tFalse, pos, "package-level "+g.Name()+" handed to unmodelled "+callee.String()+": results may depend on call history")
+				}
+			}
+		}
+	}
 	fx.labelCallDefault(v, c)
 	return fx.havocResult(c, callee.Name())
 }
@@ -319,7 +331,7 @@ func (fx *FX) callContract(st *State, v ssa.Value, callee *ssa.Function, fc *Fun
 		env.bound[l.Name] = fx.evalExpr(env, l.E)
 	}
 	for i, r := range fc.Requires {
-		fx.oblige("pre", fmt.Sprintf("%s.%d", callee.Name(), i+1), g, fx.goalBool(env, r.E), pos, r.Src)
+		fx.oblige("pre", fmt.Sprintf("%s.%d", fx.u.shortName(callee), i+1), g, fx.goalBool(env, r.E), pos, r.Src)
 	}
 	// the callee's functional clauses hold on its domain only
 	calleeDomain := tTrue
@@ -758,7 +770,7 @@ func (fx *FX) inlineCall(st *State, callee *ssa.Function, args []Val, envRef T, 
 		o.Prefix += base
 		o.fx = fx
 		o.Block = fx.curBlock
-		o.Name = strings.Replace(o.Name, "/", "/inl."+callee.Name()+":", 1)
+		o.Name = strings.Replace(o.Name, "/", "/inl."+fx.u.shortName(callee)+":", 1)
 		fx.obls = append(fx.obls, o)
 	}
 	fx.n, fx.stampN = sub.n, sub.stampN
